@@ -1521,7 +1521,11 @@ impl DhtCoreEngine {
     pub async fn verif_admission_snapshot(
         &self,
     ) -> (crate::security::DiversityStats, Vec<(String, usize)>, usize) {
-        let stats = self.ip_diversity_enforcer.read().await.get_diversity_stats();
+        let stats = self
+            .ip_diversity_enforcer
+            .read()
+            .await
+            .get_diversity_stats();
         let mut regions: Vec<(String, usize)> = self
             .geographic_diversity_enforcer
             .read()
